@@ -283,3 +283,134 @@ Proof.
     destruct (range_loop body (i + 1) l s'); [|reflexivity].
     f_equal. unfold zlen. cbn [length]. lia.
 Qed.
+
+(* ------------------------------------------------------------------ loops, independently of the shape of the body
+   An invariant rule for [range_loop]: the equality proofs state what a loop does by an invariant
+   over (number of elements consumed, state) and discharge the one-iteration obligation by
+   running the generated body, whatever its spelling (helper calls, lets, order of the tests,
+   extra variables in the state). *)
+Lemma range_loop_inv {A St R} (body : Z -> A -> St -> ctl St R) (I : nat -> St -> Prop) (Q : R -> Prop) (l : list A) :
+  (forall k x s, nth_error l k = Some x -> I k s ->
+     match body (Z.of_nat k) x s with Next s' => I (S k) s' | Return r => Q r end) ->
+  forall s, I 0%nat s ->
+  match range_loop body 0%Z l s with Next s' => I (length l) s' | Return r => Q r end.
+Proof.
+  intros Hstep.
+  assert (G : forall suf pre s, l = pre ++ suf -> I (length pre) s ->
+            match range_loop body (zlen pre) suf s with Next s' => I (length l) s' | Return r => Q r end).
+  { induction suf as [|x suf IH]; intros pre s El Hs; cbn [range_loop].
+    - subst l. now rewrite app_nil_r.
+    - assert (Hn : nth_error l (length pre) = Some x).
+      { subst l. rewrite nth_error_app2 by lia. now rewrite Nat.sub_diag. }
+      specialize (Hstep (length pre) x s Hn Hs). unfold zlen.
+      destruct (body (Z.of_nat (length pre)) x s) as [s'|r]; [|exact Hstep].
+      specialize (IH (pre ++ [x]) s').
+      replace (zlen (pre ++ [x])) with (Z.of_nat (length pre) + 1)%Z in IH
+        by (unfold zlen; rewrite app_length; cbn [length]; lia).
+      apply IH.
+      + subst l. now rewrite <- app_assoc.
+      + rewrite app_length. cbn [length]. now rewrite Nat.add_1_r. }
+  intros s Hs. exact (G l [] s eq_refl Hs).
+Qed.
+
+(* the counted loop `for i := 0; i < n; i++` *)
+Lemma for_upto_inv01 {St R} (n : nat) (body : Z -> St -> ctl St R) (I : nat -> St -> Prop) (Q : R -> Prop) :
+  (forall k s, (k < n)%nat -> I k s ->
+     match body (Z.of_nat k) s with Next s' => I (S k) s' | Return r => Q r end) ->
+  forall s, I 0%nat s ->
+  match for_upto 0%Z (Z.of_nat n) 1%Z body s with Next s' => I n s' | Return r => Q r end.
+Proof.
+  intros Hstep.
+  assert (G : forall fuel k s, (k <= n)%nat -> (n - k <= fuel)%nat -> I k s ->
+            match for_step fuel (Z.of_nat n) 1 body (Z.of_nat k) s with Next s' => I n s' | Return r => Q r end).
+  { induction fuel as [|f IH]; intros k s Hk Hf Hs; cbn [for_step].
+    - destruct (Z.ltb_spec (Z.of_nat k) (Z.of_nat n)); [lia|]. replace n with k by lia. exact Hs.
+    - destruct (Z.ltb_spec (Z.of_nat k) (Z.of_nat n)) as [Hlt|Hge].
+      + specialize (Hstep k s ltac:(lia) Hs). destruct (body (Z.of_nat k) s) as [s'|r]; [|exact Hstep].
+        replace (Z.of_nat k + 1)%Z with (Z.of_nat (S k)) by lia. apply IH; [lia | lia | exact Hstep].
+      + replace n with k by lia. exact Hs. }
+  intros s Hs. unfold for_upto. rewrite Z.sub_0_r, Nat2Z.id.
+  exact (G n 0%nat s ltac:(lia) ltac:(lia) Hs).
+Qed.
+
+(* the same for a loop that never returns early and whose effect is a fold *)
+Lemma range_loop_fold_inv {A St R} (body : Z -> A -> St -> ctl St R) (f : St -> A -> St) (l : list A) :
+  (forall i x s, body i x s = Next (f s x)) ->
+  forall i s, range_loop body i l s = Next (fold_left f l s).
+Proof. intros H. induction l as [|x l IH]; intros i s; cbn [range_loop fold_left]; [reflexivity|]. now rewrite H, IH. Qed.
+
+Lemma nth_error_firstn_S {A} (l : list A) k x : nth_error l k = Some x -> firstn (S k) l = firstn k l ++ [x].
+Proof.
+  revert k; induction l as [|y l IH]; intros [|k] H; cbn [nth_error] in H; try discriminate.
+  - inversion H. reflexivity.
+  - cbn [firstn app]. f_equal. now apply IH.
+Qed.
+
+Lemma nth_error_lt {A} (l : list A) k x : nth_error l k = Some x -> (k < length l)%nat.
+Proof. intros H. apply nth_error_Some. congruence. Qed.
+
+(* l[k] = v on a slice that is long enough *)
+Lemma upd_ok {A} (l : list A) (k : nat) v : (k < length l)%nat ->
+  upd l (Z.of_nat k) v = Some (firstn k l ++ v :: skipn (S k) l).
+Proof.
+  intros H. unfold upd. destruct (Z.ltb_spec (Z.of_nat k) 0) as [H0|_]; [lia|]. rewrite Nat2Z.id.
+  revert k H; induction l as [|x l IH]; intros [|k] H; cbn [length] in H; try lia; cbn [upd_nat firstn skipn app]; [reflexivity|].
+  rewrite IH by lia. reflexivity.
+Qed.
+
+Lemma firstn_app_exact {A} (a b : list A) n : n = length a -> firstn n (a ++ b) = a.
+Proof. intros ->. rewrite firstn_app, Nat.sub_diag, firstn_all. cbn [firstn]. apply app_nil_r. Qed.
+
+Lemma firstn_snoc_exact {A} (a r : list A) v k : length a = k -> firstn (S k) (a ++ v :: r) = a ++ [v].
+Proof.
+  intros <-. replace (a ++ v :: r) with ((a ++ [v]) ++ r) by now rewrite <- app_assoc.
+  apply firstn_app_exact. rewrite app_length. cbn [length]. lia.
+Qed.
+
+(* component of a given type of a (left-nested) tuple type, as a function: the loop states of
+   the generated code are tuples of the variables the body assigns, in an order and number that
+   depend on how the source is spelled *)
+Ltac proj_of T S :=
+  lazymatch S with
+  | T => constr:(fun x : T => x)
+  | prod ?A ?B =>
+    match constr:(Set) with
+    | _ => let g := proj_of T B in constr:(fun p : A * B => g (snd p))
+    | _ => let g := proj_of T A in constr:(fun p : A * B => g (fst p))
+    end
+  end.
+
+(* a loop state (left-nested tuple) into its components *)
+Ltac destruct_state s :=
+  lazymatch type of s with
+  | (_ * _)%type => let a := fresh "a" in let b := fresh "b" in destruct s as [a b]; destruct_state a
+  | _ => idtac
+  end.
+
+(* file.Close() called explicitly (a deferred Close is not translated): no effect on the bytes *)
+Definition file_Close (w : fw) : error * fw := (None, w).
+
+(* ------------------------------------------------------------------ instantiating a generated definition
+   The definitions of Generated/IoExpr.v are abstracted over exactly those Section variables
+   (library calls, float types) that the current spelling of the Go function happens to use,
+   in declaration order; the binders keep the variables' names.  [inst_models f] applies f to
+   the hypotheses of the goal that carry the names of its leading binders (their bodies, for
+   local definitions), so an equality proof names the model of each library call once,
+   whatever subset is used.  It stops at the first binder for which no hypothesis exists: the
+   first parameter of the Go function (the translator never gives a parameter the name of a
+   Section variable). *)
+Ltac inst_models f :=
+  lazymatch type of f with
+  | forall x : _, _ =>
+    match constr:(Set) with
+    | _ => let v := constr:(x) in let v' := eval cbv delta [x] in v in inst_models (f v')
+    | _ => let v := constr:(x) in inst_models (f v)
+    | _ => f
+    end
+  | _ => f
+  end.
+
+(* [by_name tac f]: solve the goal with f instantiated by name after [tac] has posed the models *)
+Ltac by_name tac f :=
+  let t := constr:(ltac:(tac; let u := inst_models f in exact u)) in
+  let t' := eval cbv zeta in t in exact t'.
